@@ -175,6 +175,23 @@ def r15_4_threshold_definition(ctx, rule: str = 'R15.4', rule_mirror: str = 'R08
     def lst(v):
         return C.atom(('list', (v,)))
 
+    def norm_lists(tm):
+        def f(a):
+            if a[0] == 'list' and len(a[1]) != 1:
+                out_ = C.ZERO
+                for e_ in a[1]:
+                    out_ = C.add(out_, C.atom(('list', (e_,))))
+                return out_
+            if a[0] == 'listcomp' and len(a) == 3 and len(a[2]) == 1:
+                it_ = a[2][0][0]
+                sa_ = C.single_atom(it_) if C.is_poly(it_) else it_
+                if sa_ is not None and sa_[0] == 'call' and sa_[1] == 'range' and len(sa_[2]) == 2 \
+                        and all(C.is_poly(x) and C.is_const(x) for x in sa_[2]) \
+                        and C.const_value(sa_[2][0]) >= C.const_value(sa_[2][1]):
+                    return C.ZERO          # a comprehension over an empty range contributes nothing
+            return None
+        return C.rebuild(tm, f)
+
     def one_spike(tm, conds):
         # a non-empty train for which `N > 1` fails has exactly one spike: s[N-1] is s[0] - on such a path, and
         # inside the else-alternative of every `... if N > 1 else ...` value
@@ -193,8 +210,22 @@ def r15_4_threshold_definition(ctx, rule: str = 'R15.4', rule_mirror: str = 'R08
     detail: Dict[tuple, str] = {}
     for v, conds, env_p, stores, node in mp.results:
         cs = set(conds)
-        if any(C.mk_not(c) in cs for c in cs):
+        if C.contradictory(conds):
             continue            # contradictory path conditions: not a path of the function
+        # a test `N == 1` on a non-empty train decides `N > 1`
+        if C.mk_cmp('eq', N, C.ONE) in cs:
+            conds = list(conds) + [C.mk_not(gt1)]
+        elif C.mk_cmp('ne', N, C.ONE) in cs and (cs & nonempty):
+            conds = list(conds) + [gt1]
+        cs = set(conds)
+        if C.mk_not(gt1) in cs:
+            # exactly one spike: s[N-1] is s[0] in the path conditions as well
+            n_atom_ = C.single_atom(N)
+            conds = list(conds) + [C.subst_atoms(c, {n_atom_: C.ONE}) for c in conds if c[0] == 'cmp']
+            cs = set(conds)
+        c_first1, c_last1 = c_first, c_last
+        if C.mk_not(gt1) in cs:
+            c_last1 = C.subst_atoms(c_last, {C.single_atom(N): C.ONE})
         if cs & empty and not cs & nonempty:
             seen_empty += 1
             good = v == lst(C.sub(te, ts))
@@ -203,15 +234,15 @@ def r15_4_threshold_definition(ctx, rule: str = 'R15.4', rule_mirror: str = 'R08
                        violation(rule, t, fi.loc(node), key=f"{fn}::empty-train", detail=C.show(v) if v is not None else 'None'))
             continue
         f1 = True if c_first in cs else False if C.mk_not(c_first) in cs else None
-        f2 = True if c_last in cs else False if C.mk_not(c_last) in cs else None
+        f2 = True if (c_last in cs or c_last1 in cs) else False if (C.mk_not(c_last) in cs or C.mk_not(c_last1) in cs) else None
         if f1 is None or f2 is None or v is None:
             obs.append(inconclusive(rule, "isi_lengths: every non-empty path decides `s[0] > t_start` and `s[-1] < t_end`", fi.loc(node),
                                     f"conditions {[C.show(c) for c in conds]}", construct=f"{fn}::path"))
             continue
         exp = C.add(C.add(lst(C.resolve_ifexp(want[('start', f1)], conds)), interior(C.ZERO if f1 else C.ONE, N if f2 else last)),
                     lst(C.resolve_ifexp(want[('end', f2)], conds)))
-        got = one_spike(C.resolve_ifexp(v, conds), conds)
-        exp = one_spike(exp, conds)
+        got = norm_lists(one_spike(C.resolve_ifexp(v, conds), conds))
+        exp = norm_lists(one_spike(exp, conds))
         good = got == exp
         for key in (('start', f1), ('end', f2), ('interior', None)):
             verdict.setdefault(key, []).append(good)
@@ -355,16 +386,38 @@ def r15_2_mrts_sinks(ctx, eng, rule: str = 'R15.2') -> List[Ob]:
         fn = _fn(f)
         bad = []
         n_reads = 0
+
+        def pos_const(e):
+            return isinstance(e, ast.Constant) and isinstance(e.value, (int, float)) and not isinstance(e.value, bool) and e.value > 0
+        # locals that hold the threshold scaled by a positive constant (`quarter = MRTS / 4`) are thresholds too
+        thr = {'MRTS'}
+        for _ in range(3):
+            for n in ast.walk(f.node):
+                if isinstance(n, ast.Assign) and len(n.targets) == 1 and isinstance(n.targets[0], ast.Name):
+                    v = n.value
+                    while isinstance(v, ast.BinOp) and isinstance(v.op, (ast.Div, ast.Mult)) and \
+                            (pos_const(v.right) or (isinstance(v.op, ast.Mult) and pos_const(v.left))):
+                        v = v.left if pos_const(v.right) else v.right
+                    if isinstance(v, ast.Name) and v.id in thr:
+                        thr.add(n.targets[0].id)
         for n in ast.walk(f.node):
-            if isinstance(n, ast.Name) and n.id == 'MRTS' and isinstance(n.ctx, ast.Load):
+            if isinstance(n, ast.Name) and n.id in thr and isinstance(n.ctx, ast.Load):
                 n_reads += 1
-                p = par.get(n)
+                top = n
+                p = par.get(top)
+                # scaling by a positive constant keeps the role
+                while isinstance(p, ast.BinOp) and isinstance(p.op, (ast.Div, ast.Mult)) and \
+                        ((p.left is top and pos_const(p.right)) or (isinstance(p.op, ast.Mult) and p.right is top and pos_const(p.left))):
+                    top = p
+                    p = par.get(top)
+                if isinstance(p, ast.Assign) and len(p.targets) == 1 and isinstance(p.targets[0], ast.Name) and p.targets[0].id in thr:
+                    continue
                 if isinstance(p, ast.List):
                     p = par.get(p)
                 if isinstance(p, ast.Call) and isinstance(p.func, ast.Name):
                     if p.func.id in ('max', 'fmax'):
                         continue
-                    # helper call: MRTS must land on the helper's MRTS (or `t` threshold) parameter
+                    # helper call: the threshold must land on the helper's MRTS (or `t` threshold) parameter
                     tgt = None
                     for m in repo.modules.values():
                         if p.func.id in m.functions and m.name.startswith('pyspike.cython'):
@@ -374,7 +427,7 @@ def r15_2_mrts_sinks(ctx, eng, rule: str = 'R15.2') -> List[Ob]:
                         tgt = repo.func(f.module, nested)
                     if tgt is not None:
                         tp = [a.arg for a in tgt.node.args.args]
-                        k = [i for i, a in enumerate(p.args) if a is n]
+                        k = [i for i, a in enumerate(p.args) if a is top]
                         if k and k[0] < len(tp) and tp[k[0]] in ('MRTS', 't'):
                             continue
                         if k and len(tp) == len(p.args) + 1 and k[0] + 0 < len(tp) and tp[k[0]] in ('MRTS', 't'):
@@ -610,7 +663,27 @@ def r20_1_multiset(ctx, rule: str = 'R20.1') -> List[Ob]:
     t = "psth: the histogram is taken over the spikes of every train (first train plus a loop over all the others, appended)"
     good = False
     detail = ''
-    if hist is not None and isinstance(hist.args[0], ast.Name):
+    def pools_all(e) -> Optional[bool]:
+        """`np.concatenate([<spikes of st> for st in trains])` (also hstack; the element may be wrapped in calls that keep
+        every value: ravel, asarray, array): True / False (a filter or another source) / None (not this shape)"""
+        if isinstance(e, ast.Call) and C.dotted(e.func) in ('np.concatenate', 'np.hstack') and e.args and \
+                isinstance(e.args[0], (ast.ListComp, ast.GeneratorExp)):
+            lc = e.args[0]
+            if len(lc.generators) != 1:
+                return False
+            g_ = lc.generators[0]
+            elt = lc.elt
+            while isinstance(elt, ast.Call) and C.dotted(elt.func) in ('np.ravel', 'np.asarray', 'np.array', 'np.atleast_1d') and elt.args:
+                elt = elt.args[0]
+            return isinstance(g_.iter, ast.Name) and g_.iter.id == q0 and not g_.ifs and isinstance(g_.target, ast.Name) and \
+                ast.unparse(elt) == f"{g_.target.id}.spikes"
+        return None
+    direct = pools_all(hist.args[0]) if hist is not None and hist.args else None
+    if direct is not None:
+        t_ = "psth: the histogram is taken over the spikes of every train (first train plus a loop over all the others, appended)"
+        obs.append(ok(rule, t_, g.loc(), construct=f"{gn}::pool") if direct else
+                   violation(rule, t_, g.loc(), key=f"{gn}::pool-all-trains", detail=ast.unparse(hist.args[0])[:200]))
+    if direct is None and hist is not None and isinstance(hist.args[0], ast.Name):
         var = hist.args[0].id
         init = [n for n in g.node.body if isinstance(n, ast.Assign) and isinstance(n.targets[0], ast.Name) and n.targets[0].id == var]
         loops = [n for n in g.node.body if isinstance(n, ast.For)]
@@ -654,9 +727,13 @@ def r20_1_multiset(ctx, rule: str = 'R20.1') -> List[Ob]:
                 detail = f"concatenate over comprehension, all trains={full}"
             elif not (init_ok and len(loops) == 1):
                 verdict = 'inconclusive'
-    else:
+    elif direct is None:
         verdict = 'inconclusive'
-    if verdict == 'ok':
+    else:
+        verdict = 'done'
+    if verdict == 'done':
+        pass
+    elif verdict == 'ok':
         obs.append(ok(rule, t, g.loc(), construct=f"{gn}::pool"))
     elif verdict == 'violation':
         obs.append(violation(rule, t, g.loc(), key=f"{gn}::pool-all-trains", detail=detail))
